@@ -126,3 +126,98 @@ def check_sorts(res: Result, lcs: List[LaunchCtx]):
           sample={"kernel": lc.name, "array": a.root, "dim": d, "index": show(ix)[:50], "space": s} if known % 300 == 1 else None,
         )
   return n, known
+
+
+# ------------------------------------------------------------------------------------------------ R-SORT.3
+def check_tagged_ids(res: Result, lcs: List[LaunchCtx]) -> int:
+  """R-SORT.3: `efc.id` and `sensor_objid` are tagged ids - which index space the number lives in (joint, tendon, dof,
+  equality, contact) is said by the type stored next to it (`efc.type`, `sensor_type`). Comparing two such ids for
+  equality means something only on paths where both tags are pinned to members of the SAME space: `efc_id == objid` under
+  `efc_type in (LIMIT_JOINT, LIMIT_TENDON)` with the sensor's kind left open matches joint k's sensor against tendon k's
+  row. Decided by enumerating the tag members: for every pair of members whose spaces differ, the path condition of the
+  access must be definitely false (three-valued evaluation; everything that is not a tag test is unknown)."""
+  from ..terms import lit_parts, pc_literals, subterms
+
+  tab = sort_tables.TAGGED_IDS
+  n = 0
+  seen = set()
+
+  def tagged(lc, t):
+    if isinstance(t, T) and t.op == "ld":
+      k = array_key(lc, t.args[0])
+      if k in tab:
+        return k
+    return None
+
+  for lc in lcs:
+    for a in lc.keval.accesses:
+      if not a.is_write:
+        continue
+      cmps = []
+      for t, pol in pc_literals(a.pc):
+        if pol and isinstance(t, T) and t.op == "cmp" and t.args[0] == "==":
+          ka, kb = tagged(lc, t.args[1]), tagged(lc, t.args[2])
+          if ka and kb:
+            cmps.append((t, ka, kb))
+      for t, ka, kb in cmps:
+        sig = (lc.name, t)
+        if sig in seen:
+          continue
+        seen.add(sig)
+        n += 1
+        ida, idb = t.args[1], t.args[2]
+        tfa, ena, spa = tab[ka]
+        tfb, enb, spb = tab[kb]
+
+        def tag_load_matches(x, tagfield, idterm):
+          """x is a load of the tag field at the same element as the id"""
+          return isinstance(x, T) and x.op == "ld" and array_key(lc, x.args[0]) == tagfield and tuple(x.args[1:]) == tuple(idterm.args[1:])
+
+        def ev(x, asg):
+          """three-valued truth of a path-condition term under a tag assignment {('a'|'b'): member}"""
+          if isinstance(x, T) and x.op == "lit":
+            v = ev(x.args[0], asg)
+            return v if (v is None or x.args[1]) else (not v)
+          if isinstance(x, T) and x.op in ("all", "and"):
+            vs = [ev(y, asg) for y in x.args]
+            return False if any(v is False for v in vs) else (True if all(v is True for v in vs) else None)
+          if isinstance(x, T) and x.op == "or":
+            vs = [ev(y, asg) for y in x.args]
+            return True if any(v is True for v in vs) else (False if all(v is False for v in vs) else None)
+          if isinstance(x, T) and x.op == "not":
+            v = ev(x.args[0], asg)
+            return None if v is None else not v
+          if isinstance(x, T) and x.op == "cmp" and x.args[0] in ("==", "!="):
+            l, r = x.args[1], x.args[2]
+            if isinstance(l, T) and l.op == "enum":
+              l, r = r, l
+            if isinstance(r, T) and r.op == "enum":
+              for side, tf, en, idt in (("a", tfa, ena, ida), ("b", tfb, enb, idb)):
+                if r.args[0] == en and tag_load_matches(l, tf, idt):
+                  eq = asg[side] == r.args[1]
+                  return eq if x.args[0] == "==" else not eq
+          return None
+
+        bad = None
+        for ma, sa in spa.items():
+          for mb, sb in spb.items():
+            if sa == sb:
+              continue
+            asg = {"a": ma, "b": mb}
+            if not any(ev(l, asg) is False for l in a.pc):
+              bad = (ma, mb, sa, sb)
+              break
+          if bad:
+            break
+        res.ob(
+          bad is None,
+          f"{lc.name}|tagged-id-compare|{show(t)[:60]}",
+          Finding(
+            "R-SORT.3",
+            f"{lc.name}|{ka}=={kb}|tags-not-pinned-to-one-space",
+            f"`{show(t)[:100]}` compares two tagged ids, but the path to `{a.root}` stays reachable with {tfa.split('.')[-1]} = {bad[0] if bad else ''} (a `{bad[2] if bad else ''}` id) and {tfb.split('.')[-1]} = {bad[1] if bad else ''} (a `{bad[3] if bad else ''}` id): equal numbers in different index spaces are matched (element k of one kind against element k of the other)",
+            a.loc,
+          ),
+          sample={"kernel": lc.name, "compare": show(t)[:80]},
+        )
+  return n
